@@ -3,6 +3,7 @@ package main
 import (
 	"fmt"
 	"sort"
+	"strings"
 )
 
 // The snapping family: C01, C03, C04, C05, C06, C07, C08, C09, C18 share the `snap` correspondence stream
@@ -77,7 +78,7 @@ func (e *env) classify(c *snapCase, sr *snapResult) (nontrivial bool) {
 
 func (e *env) runSnap(o snapOpts) {
 	r := e.res
-	const chunk = 256
+	const chunk = 1024
 	for done := 0; done < o.n; {
 		var cases []*snapCase
 		for len(cases) < chunk && done+len(cases) < o.n {
@@ -129,7 +130,13 @@ func (e *env) runSnap(o snapOpts) {
 				r.Dist["snap:not-compared(arbitrary polygon on a non-dyadic grid: float seam)"]++
 			} else if answers != nil {
 				if m := canonModel(answers[i]); m != impl {
-					r.diff(Diff{Stream: o.stream, Op: ops[i], Impl: impl, Model: m, Note: c.describe()})
+					if c.gs.levelDiff != 4 && (hasZeroAreaRing(sr.levels) || hasZeroAreaRing(parseSnapAnswer(m))) {
+						// float seam (DESIGN §7): on a non-dyadic grid the code's float orientation of a ring whose exact area is zero
+						// (a figure-eight of equal lobes) is rounding noise, the model's exact orientation says collinear
+						r.Dist["snap:not-compared(zero-area ring under float orientation on a non-dyadic grid)"]++
+					} else {
+						r.diff(Diff{Stream: o.stream, Op: ops[i], Impl: impl, Model: m, Note: c.describe()})
+					}
 				}
 			}
 			var chains map[uint][]ring
@@ -141,6 +148,46 @@ func (e *env) runSnap(o snapOpts) {
 			}
 		}
 	}
+}
+
+func hasZeroAreaRing(levels map[uint][]polygonI) bool {
+	for _, ps := range levels {
+		for _, pg := range ps {
+			for _, rg := range pg {
+				if len(rg) >= 3 && area2(rg).Sign() == 0 {
+					return true
+				}
+			}
+		}
+	}
+	return false
+}
+
+// parseSnapAnswer parses the canonical answer text back into pixel-index polygons
+func parseSnapAnswer(ans string) map[uint][]polygonI {
+	res := map[uint][]polygonI{}
+	if !strings.HasPrefix(ans, "ok ") {
+		return res
+	}
+	for _, part := range splitLevels(ans[3:]) {
+		var l uint
+		i := strings.Index(part, ":[")
+		if i < 0 {
+			continue
+		}
+		fmt.Sscanf(part[1:i], "%d", &l)
+		body := part[i+2 : len(part)-1]
+		var polys []polygonI
+		for _, ps := range strings.Split(body, ";") {
+			var pg polygonI
+			for _, rs := range strings.Split(ps, "|") {
+				pg = append(pg, parseRing(rs))
+			}
+			polys = append(polys, pg)
+		}
+		res[l] = polys
+	}
+	return res
 }
 
 func (e *env) snapViolation(oracle string, c *snapCase, sr *snapResult, detail, known string) {
